@@ -842,8 +842,16 @@ func (ms *MidState) fileContractElement(ts V1TransactionSupplement, id types.Fil
 }
 
 func (ms *MidState) storageProofWindowID(ts V1TransactionSupplement, id types.FileContractID) (types.BlockID, bool) {
-	if i, ok := ms.elements[id]; ok && i < len(ms.fces) && ms.fces[i].FileContractElement.ID == id && ms.fces[i].FileContractElement.FileContract.WindowStart == ms.base.childHeight() {
-		return ms.base.Index.ID, true
+	if i, ok := ms.elements[id]; ok && i < len(ms.fces) && ms.fces[i].FileContractElement.ID == id {
+		// the window is that of the contract as it currently stands, i.e.
+		// after any revision earlier in this block
+		fc := ms.fces[i].FileContractElement.FileContract
+		if ms.fces[i].Revision != nil {
+			fc = *ms.fces[i].Revision
+		}
+		if fc.WindowStart == ms.base.childHeight() {
+			return ms.base.Index.ID, true
+		}
 	}
 	for _, sps := range ts.StorageProofs {
 		if sps.FileContract.ID == id {
